@@ -4,7 +4,8 @@ that drives one C16 case on the real grpclib Channel and records the observables
 A case is  {'script': [[outcome, mode], ...], 'ka': bool, 'batches': [[stim, ...], ...]}
   outcome 'ok' | 'fail';  mode 'd' (deferred: `_create_connection` awaits until a `resolve` stimulus)
                                | 'i' (inline: `_create_connection` returns / raises without suspending)
-  stim:  ['start'] | ['resolve'] | ['cancel', k] | ['lose', c] | ['goaway', c] | ['kaclose'] |
+  stim:  ['start'] | ['resolve'] | ['cancel', k] | ['lose', c] |
+         ['goaway', c] or ['goaway', c, error_code, 'zero'|'seen'|'max', debug] (last_stream_id 0 / highest seen / 2**31-1) | ['kaclose'] |
          ['close'] | ['pause', c] | ['resume', c] | ['answer', k] |
          ['hold', c]  (from now on c's transport withholds connection_lost after close(); only `lose` delivers it)
 All stimuli of one batch are applied back to back WITHOUT running the loop; then the loop runs until
@@ -158,6 +159,11 @@ class Runner:
         self.obs = []
         self.inflight_at_close = []  # [(batch index, [callers unfinished when close() ran])]
         self.handed = []             # (caller, conn index or None, dead at return) from __connect__
+        self.handed_at = []          # batch index of each entry of `handed`
+        self.goaway_at = {}          # conn index -> batch index at which a GOAWAY was delivered to it
+        self.was_unregistered = set()  # callers seen blocked in protocol.Stream.send_request (not registered)
+        self.bi = 0
+        self.anomalies = []
         self._wrap_connect()
 
     # ---- instrumentation at the Channel's own method boundary (no source hook)
@@ -173,6 +179,7 @@ class Runner:
             idx = runner._conn_index(proto)
             dead = (proto is None or proto.handler.connection_lost or proto.connection.is_closing())
             runner.handed.append((k, idx, bool(dead)))
+            runner.handed_at.append(runner.bi)
             return proto
         ch.__connect__ = connect
 
@@ -225,7 +232,16 @@ class Runner:
             elif op == 'goaway':
                 # asyncio delivers no data once the transport is closing
                 if not tr.closing and not tr.lost:
-                    peer.goaway()
+                    # ['goaway', c, error_code, last, debug]: last in 'zero' | 'seen' | 'max' (2**31-1, the
+                    # "graceful shutdown notice"); defaults = h2's defaults
+                    code = st[2] if len(st) > 2 else 0
+                    last = st[3] if len(st) > 3 else 'seen'
+                    dbg = st[4] if len(st) > 4 else 0
+                    lsid = {'zero': 0, 'seen': None, 'max': 2 ** 31 - 1}[last]
+                    peer.h2.close_connection(error_code=code, additional_data=(b'bye' * dbg) or None,
+                                             last_stream_id=lsid)
+                    self.goaway_at.setdefault(c, bi)
+                    peer.flush()
             elif op == 'pause':
                 if not tr.closing and not tr.lost:
                     tr.pause()
@@ -238,7 +254,8 @@ class Runner:
             if k in self.req and k not in self.answered and not self.tasks[k].done():
                 c, sid = self.req[k]
                 proto, tr, peer = ce.conns[c]
-                if not tr.closing and not tr.lost:
+                # (the scripted peer's own h2 is CLOSED once it has sent GOAWAY: it cannot answer any more)
+                if not tr.closing and not tr.lost and c not in self.goaway_at:
                     self.answered.add(k)
                     peer.headers(sid, P.RESP_HEADERS, flush=False)
                     peer.data(sid, P.grpc_frame(b'reply-%d' % k), flush=False)
@@ -260,6 +277,11 @@ class Runner:
                         self.req[int(data[5:])] = (c, ev.stream_id)
 
     def run_batch(self, batch, bi):
+        self.bi = bi
+        self._run_batch(batch, bi)
+        self.was_unregistered |= {k for k, v in self.stages().items() if v == 'unregistered'}
+
+    def _run_batch(self, batch, bi):
         """apply the stimuli back to back, then run the loop until nothing is ready.  A batch containing
         `kaclose` (keepalive cases only; at most one per batch, no `resolve` before it) advances virtual time
         by keepalive_time + keepalive_timeout so that the REAL keepalive timer runs Connection.close(); the
@@ -297,7 +319,11 @@ class Runner:
             for p, tr in open_conns:
                 p.connection.__dict__.pop('close', None)
             if not fired:
-                raise RuntimeError('keepalive timer did not close the open connection(s)')
+                # the real keepalive timer did not close a silent connection (not C16's clause; the model will
+                # disagree on the observation vector): apply the remaining stimuli so that the case goes on
+                self.anomalies.append('batch %d: keepalive timer did not close the open connection(s)' % bi)
+                for st in pre + post:
+                    self.apply(st, bi)
         else:
             for st in batch:
                 if st[0] != 'kaclose':
